@@ -49,17 +49,17 @@ def pick_distinct(rng, pool, n, used):
 
 # --------------------------------------------------------------------------- generator
 
-def random_desc(rng, n_reactive=None, safe=True, max_nodes=5):
+def random_desc(rng, n_reactive=None, safe=True, max_nodes=5, n_sources=None, n_res=None, zero_v=False):
     """connected multigraph, 1-5 reactive elements, 1-2 ideal sources, resistors; dyadic values.
     safe=True: every current-source id sorts before every voltage-source / inductor id and the
     inductors are listed alphabetically (the naming regime in which the implementation's
     column selection is right); everything else (capacitor / resistor names, node labels,
     capacitor listing order, terminal order) stays adversarial."""
-    nr = n_reactive or rng.choice([1, 1, 2, 2, 2, 3, 3, 4, 5])
-    ns = rng.choice([1, 1, 2])
-    nres = rng.randint(1, 4)
+    nr = rng.choice([1, 1, 2, 2, 2, 3, 3, 4, 5]) if n_reactive is None else n_reactive
+    ns = rng.choice([1, 1, 2]) if n_sources is None else n_sources
+    nres = rng.randint(1, 4) if n_res is None else n_res
     nb = nr + ns + nres
-    n = rng.randint(2, min(max_nodes, nb))
+    n = rng.randint(2, max(2, min(max_nodes, nb)))
     pool = list(rng.choice(gen_net.LABEL_POOLS)); rng.shuffle(pool)
     labels = pool[:n]
     edges = [(labels[rng.randrange(k)], labels[k]) for k in range(1, n)]
@@ -87,13 +87,28 @@ def random_desc(rng, n_reactive=None, safe=True, max_nodes=5):
         if rng.random() < 0.5: a, b = b, a
         if kind == 'R': val = 2.0 ** rng.randint(-2, 3)
         elif kind in ('C', 'L'): val = 2.0 ** rng.randint(-3, 2)
-        else: val = rng.choice([1.0, 2.0, 0.5, 3.0, -1.0, -2.0, 4.0])
+        else: val = 0.0 if (zero_v and kind == 'V' and rng.random() < 0.5) else rng.choice([1.0, 2.0, 0.5, 3.0, -1.0, -2.0, 4.0])
         comps.append(dict(kind=kind, id=cid, n1=a, n2=b, val=val))
     if safe:                                  # inductors listed alphabetically
         slots = [i for i, c in enumerate(comps) if c['kind'] == 'L']
         srt = sorted((comps[i] for i in slots), key=lambda c: c['id'])
         for i, c in zip(slots, srt): comps[i] = c
     return dict(ground=rng.choice(labels), comps=comps, ground_pos=rng.randint(0, nb))
+
+def wide_desc(rng):
+    """corners of the domain the ordinary generator does not visit: no source at all, three or four sources, no
+    reactive element (state dimension 0), no resistor (lossless LC), up to nine nodes, dc voltage sources of value 0"""
+    corner = rng.choice(['no_source', 'many_sources', 'no_reactive', 'no_resistor', 'many_nodes', 'zero_volt'])
+    kw = dict(safe=rng.random() < 0.4)
+    if corner == 'no_source': kw.update(n_sources=0)
+    elif corner == 'many_sources': kw.update(n_sources=rng.choice([3, 4]))
+    elif corner == 'no_reactive': kw.update(n_reactive=0, n_res=rng.randint(2, 5))
+    elif corner == 'no_resistor': kw.update(n_res=0, n_reactive=rng.choice([2, 3, 4]))
+    elif corner == 'many_nodes': kw.update(max_nodes=9, n_res=rng.randint(4, 8), n_reactive=rng.choice([2, 3, 4]))
+    else: kw.update(zero_v=True, n_sources=rng.choice([1, 2]))
+    d = random_desc(rng, **kw)
+    d['corner'] = corner
+    return d
 
 def permute_reactive(rng, desc, keep_inductors_sorted):
     """another listing order of the reactive elements (same circuit)"""
@@ -121,6 +136,19 @@ def vary_values(rng, desc, kinds=('R', 'C', 'L')):
         c = dict(c)
         if c['kind'] in kinds:
             c['val'] = c['val'] * fs[k % len(fs)]; k += 1
+        comps.append(c)
+    return dict(desc, comps=comps)
+
+def with_lossy_sources(rng, desc):
+    """the same circuit with LINEAR (lossy) sources: dc / ac (w = 0) voltage sources with an internal resistance,
+    current sources with an internal conductance"""
+    comps = []
+    for c in desc['comps']:
+        c = dict(c)
+        if c['kind'] == 'V':
+            c['src'] = dict(type=rng.choice(['dc', 'ac']), w=0.0, phi=rng.choice([0.0, math.pi]), Ri=2.0 ** rng.randint(-2, 3))
+        elif c['kind'] == 'I':
+            c['src'] = dict(type=rng.choice(['dc', 'ac']), w=0.0, phi=rng.choice([0.0, math.pi]), Gi=2.0 ** rng.randint(-3, 2))
         comps.append(c)
     return dict(desc, comps=comps)
 
@@ -202,6 +230,8 @@ def facts(desc) -> dict:
         has_inductor=bool(ls),
         n_reactive=sum(1 for c in desc['comps'] if c['kind'] in REACTIVE),
         zero_valued_current_source=any(c['kind'] in ('I0', 'Iac') for c in desc['comps']),
+        **({'lossy_source': True} if any(is_lossy_source(c) for c in desc['comps']) else {}),
+        **({'zero_resistance': True} if any(c['kind'] == 'R' and c['val'] == 0 for c in desc['comps']) else {}),
     )
 
 def shape(desc):
@@ -217,7 +247,8 @@ def _src_str(c):
 
 def pretty(desc):
     return dict(ground=desc['ground'], **({'si': desc['si']} if 'si' in desc else {}),
-                **({'grid': desc['grid']} if 'grid' in desc else {}),
+                **({'grid': desc['grid']} if 'grid' in desc else {}), **({'maps': desc['maps']} if 'maps' in desc else {}),
+                **({'corner': desc['corner']} if 'corner' in desc else {}),
                 comps=[f"{c['kind']}:{c['id']}({c['n1']},{c['n2']})={c['val']}{_src_str(c)}" for c in desc['comps']])
 
 # --------------------------------------------------------------------------- source kinds
@@ -233,7 +264,7 @@ def has_lossy_source(desc) -> bool:
 def dc_value(c) -> float:
     """what DCSolution takes as the value of a source: real part of the phasor at w = 0"""
     sr = c.get('src')
-    if sr is None: return c['val']
+    if sr is None or sr['type'] in ('dc', 'complex'): return c['val']
     if sr['type'] == 'ac': return c['val'] * math.cos(sr['phi']) if sr['w'] == 0 else 0.0
     return 0.0                                    # periodic sin / tri / rect: zero mean
 
@@ -246,9 +277,11 @@ def with_source_kinds(rng, desc, lossy=False):
     for c in desc['comps']:
         c = dict(c)
         if c['kind'] == 'V':
-            t = rng.choice(['ac0', 'ac0', 'acw', 'periodic'])
+            t = rng.choice(['ac0', 'ac0', 'acw', 'periodic', 'complex'])
             phi = rng.choice(PHASES)
-            if t == 'periodic':
+            if t == 'complex' and not lossy:
+                c['src'] = dict(type='complex', imag=rng.choice([0.0, 1.5, -0.75]))
+            elif t == 'periodic':
                 c['src'] = dict(type='periodic', wavetype=rng.choice(['sin', 'tri', 'rect']), w=2.0 ** rng.randint(-2, 3), phi=phi)
             else:
                 c['src'] = dict(type='ac', w=0.0 if t == 'ac0' else 2.0 ** rng.randint(-2, 3), phi=phi)
@@ -282,12 +315,19 @@ def build_circuit(desc):
             sr = c['src']
             if sr['type'] == 'ac':
                 comps.append(cmp.ac_voltage_source(c['id'], nodes, V=c['val'], R=sr.get('Ri', 0.0), w=sr['w'], phi=sr['phi']))
+            elif sr['type'] == 'dc':
+                comps.append(cmp.dc_voltage_source(c['id'], nodes, V=c['val'], R=sr.get('Ri', 0.0)))
+            elif sr['type'] == 'complex':
+                comps.append(cmp.complex_voltage_source(c['id'], nodes, V=complex(c['val'], sr['imag'])))
             else:
                 comps.append(cmp.periodic_voltage_source(c['id'], nodes, wavetype=sr['wavetype'], V=c['val'], w=sr['w'],
                                                          phi=sr['phi'], R=sr.get('Ri', 0.0)))
         elif k == 'I' and 'src' in c:
             sr = c['src']
-            comps.append(cmp.ac_current_source(c['id'], nodes, I=c['val'], G=sr.get('Gi', 0.0), w=sr['w'], phi=sr['phi']))
+            if sr['type'] == 'dc':
+                comps.append(cmp.dc_current_source(c['id'], nodes, I=c['val'], G=sr.get('Gi', 0.0)))
+            else:
+                comps.append(cmp.ac_current_source(c['id'], nodes, I=c['val'], G=sr.get('Gi', 0.0), w=sr['w'], phi=sr['phi']))
         elif k == 'V': comps.append(cmp.dc_voltage_source(c['id'], nodes, V=c['val']))
         elif k == 'I': comps.append(cmp.dc_current_source(c['id'], nodes, I=c['val']))
         elif k == 'I0': comps.append(cmp.dc_current_source(c['id'], nodes, I=0.0))
@@ -304,6 +344,34 @@ class Impl:
 
 def flat(a):
     return np.asarray(a, dtype=float).reshape(-1)
+
+def permuted_mapper(base, seed):
+    """a valid non-default index map: the library's own map with its indices permuted; enumeration order = index
+    order (the shape of the library's maps; maps whose key order differs from the index order are not supported by
+    current_source_vector / constants_vector either and are outside the domain)"""
+    from CircuitCalculator.Network.NodalAnalysis import label_mapping as lm
+    def mapper(network):
+        keys = list(base(network).keys)
+        if seed == 'reversed': keys = keys[::-1]
+        else: core.Rng(seed, 'perm', len(keys)).shuffle(keys)
+        return lm.LabelMapping({k: j for j, k in enumerate(keys)})
+    return mapper
+
+def mapper_kwargs(desc) -> dict:
+    """keyword arguments of nodal_state_space_model for a description with `maps` = dict(node=, vs=, cs=) seeds"""
+    from CircuitCalculator.Network.NodalAnalysis import label_mapping as lm
+    mp = desc.get('maps') or {}
+    kw = {}
+    if mp.get('node') is not None: kw['node_index_mapper'] = permuted_mapper(lm.default_node_mapper, mp['node'])
+    if mp.get('vs') is not None: kw['voltage_source_index_mapper'] = permuted_mapper(lm.alphabetic_voltage_source_mapper, mp['vs'])
+    if mp.get('cs') is not None: kw['current_source_index_mapper'] = permuted_mapper(lm.alphabetic_current_source_mapper, mp['cs'])
+    return kw
+
+def with_maps(rng, desc):
+    """the same description assembled with non-default, order-consistent index maps: one, two or all three of the
+    public mapper keyword arguments"""
+    which = rng.choice([('node',), ('vs',), ('cs',), ('node', 'vs'), ('node', 'cs'), ('vs', 'cs'), ('node', 'vs', 'cs'), ('node', 'vs', 'cs')])
+    return dict(desc, maps={k: rng.randrange(1 << 30) for k in which})
 
 def impl_model(desc) -> Impl:
     """nodal_state_space_model of the real code on the real translation of the circuit, with
@@ -323,7 +391,7 @@ def impl_model(desc) -> Impl:
         return r
     np.linalg.inv = spy
     try:
-        im.ssm = nodal_state_space_model(im.network, c_values=im.cvals, l_values=im.lvals)
+        im.ssm = nodal_state_space_model(im.network, c_values=im.cvals, l_values=im.lvals, **mapper_kwargs(desc))
     finally:
         np.linalg.inv = orig
     im.inverses = captured
